@@ -300,6 +300,32 @@ pub fn check_e2e(c: &E2eCase, obs: &mut Obs) -> Result<(), Fail> {
     Ok(())
 }
 
+/// Fuzz entry: bytes -> (messages, partition) -> the decoder-lane oracle.
+pub fn fuzz_entry(data: &[u8], obs: &mut Obs) -> Result<(), Fail> {
+    let mut it = data.iter().copied();
+    let mut next = || it.next().unwrap_or(0);
+    let n = (next() % 4 + 1) as usize;
+    let mut msgs = Vec::new();
+    for _ in 0..n {
+        let kind = next();
+        let id = next() as i64 | ((next() as i64 & 0x7f) << 8);
+        let tl = (next() % 24) as usize;
+        let text: String = (0..tl).map(|_| (b'a' + next() % 26) as char).collect();
+        let resp = match kind % 4 {
+            0 => Resp::result([1u8, 5, 7, 9, 11, 13, 15, 24][(kind as usize / 4) % 8], crate::model::Res { rc: next() as u32, matched: String::new(), text, refs: if kind & 0x80 != 0 { Some(vec!["ldap://x/".into()]) } else { None } }),
+            1 => Resp::Entry(Entry { dn: text, attrs: vec![("a".into(), vec![vec![kind; (next() as usize) * 3]])] }),
+            2 => Resp::Reference(vec![text]),
+            _ => Resp::Intermediate { name: None, val: Some(text.into_bytes()) },
+        };
+        let ctrls = if kind & 0x40 != 0 { Some(vec![crate::model::RCtl { oid: "1.2.3".into(), crit: crate::model::CritForm::True, val: Some(vec![next()]) }]) } else { None };
+        msgs.push(RespMsg { id, resp, ctrls });
+    }
+    let forms: Vec<u8> = (0..(next() % 4)).map(|_| next() % 6).collect();
+    let cuts: Vec<u16> = (0..(next() % 10)).map(|_| (next() as u16) << 8 | next() as u16).collect();
+    let part = if cuts.is_empty() { Partition::Bytes } else { Partition::Cuts(cuts) };
+    check(&Case { msgs, forms, part }, obs)
+}
+
 pub fn property() -> Property {
     Property {
         id: "C06",
